@@ -12,8 +12,10 @@ mod convert;
 mod corrupt;
 mod dsbuild;
 mod framework;
+mod nethelp;
 mod pdugen;
 mod simio;
+mod simnet;
 
 use std::io::Read;
 
